@@ -19,7 +19,9 @@ EXPLANATION = (
     "R15.3 the only writes to the globals map reachable from Invoke are the STORE arm under GLOBAL scope and in-place element/"
     "member stores. R15.4 default instances are built freshly per declaration: the creators consult no instance state (no cache) "
     "and replicate no value of a kind that some arm mutates in place. R15.5 constants handed to CreateConstant are immutable "
-    "scalars."
+    "scalars, and the argument list handed to a callee is built on every path of the CALL arm. R15.3 also: a name that denotes "
+    "a global is lowered to accesses of that global (= R12.1/R12.4). R15.6 load forwarding and instruction removal (= R02.7/R02.2). "
+    "R15.7 the program's globals are those of all linked modules."
 )
 NOT_DECIDED = "equivalence with the reference state machine over all histories; host aliasing (SetGlobal keeps the host's object by reference, which the test-suite relies on)"
 ASSUMPTIONS = ["vectors and matrix rows are only ever replaced (copying *_SET arms, C03 R03.3), so sharing them between default rows is harmless"]
